@@ -373,7 +373,7 @@ pub static C05: PropDef = PropDef {
     prefixes: &["C05/"],
     rule: "forkprobe: histories (quick <=40, thorough <=200 ops) over {register, register_sigaction, unregister(live or stale id), unregister_signal, deliver (real raise)} on 1-20 catchable signals including realtime numbers; reference model = per-signal ordered list of (id, tag) + set of taken-over signals; after every step: return value equals the model's, ids never repeat, a delivery runs exactly the model's list in order, every taken-over signal keeps the library handler with SA_RESTART|SA_SIGINFO, untouched signals keep their disposition; optional directed probe: a blocking read interrupted by a handled signal restarts. Non-trivial = >=2 signals, >=1 stale unregister and a delivery after a removal; distinct = the case value",
     assumptions: &["signals are raised only once taken over by the library"],
-    cases: (1500, 10_000),
+    cases: (1500, 40_000),
     shrink_iters: 300,
     worker,
     replay,
